@@ -1,7 +1,7 @@
 CFG = {
- 'assumptions': ['value trees are built from: the nil interface, bool and the ten integer kinds, strings, slices (nil / empty / '
+ 'assumptions': ['value trees are built from: the nil interface, bool, the ten integer kinds, float32/float64 (bit patterns incl. -0, infinities, a quiet NaN), strings, slices (nil / empty / '
                  'non-empty, unnamed and three named slice types), arrays, pointers, one map / struct / chan / func value each; '
-                 'floats, complex numbers, user structs as slice elements and interface types with methods are not generated',
+                 'complex numbers, user structs as slice elements and interface types with methods are not generated',
                  'reflect (ValueOf, Kind, Len, Index, Interface) is Go\'s library: modelled definitionally, not verified'],
  'files': ['typehelper/toslice.go'],
  'go': {'typehelper.ToSlice': 'typehelper.ToSlice',
